@@ -448,9 +448,26 @@ def r7(ctx):
         kind = None
         if dd[0] == 'stmt' and dd[1]['rv']['k'] == 'bin' and dd[1]['rv']['op'] in ('Lt', 'Le', 'Gt', 'Ge'):
             # bound test: read vs len
-            sa, sb2 = backslice(b, [dd[1]['rv']['a']]), backslice(b, [dd[1]['rv']['b']])
-            names = {b.local_name(l) for l in (sa.locals | sb2.locals)}
-            if {'read', 'len'} <= names:
+            from ..analysis import base_named_local
+            na = base_named_local(b, dd[1]['rv']['a'])
+            nb = base_named_local(b, dd[1]['rv']['b'])
+            # the accumulator (only ever increased by the bytes just read) against a bound that depends on neither
+            def is_acc(l):
+                if l is None:
+                    return False
+                for d_ in b.defs().get(l, []):
+                    if d_[2] == 'assign':
+                        sl_ = backslice(b, rvalue_operands(d_[3]['rv']), stop_local=lambda x: x == l)
+                        if any(op_.startswith('Add') for op_, _ in sl_.binops) and rd.dest[0] in sl_.locals and l in sl_.locals:
+                            return True
+                return False
+
+            def is_bound(l, acc):
+                if l is None:
+                    return False
+                sl_ = backslice(b, [l])
+                return rd.dest[0] not in sl_.locals and acc not in sl_.locals and bool(sl_.upvars or sl_.params)
+            if (is_acc(na) and is_bound(nb, na)) or (is_acc(nb) and is_bound(na, nb)):
                 kind = 'bound'
         elif dd[0] == 'stmt' and dd[1]['rv']['k'] == 'disc' and dd[1]['rv']['p'][0] == rd.dest[0]:
             kind = 'error'
